@@ -457,7 +457,7 @@ func init() {
 		r := fr.i.run
 		if f, ok := a[0].(symFloat); ok {
 			tc := r.tc
-			if i, c := intOverConst(f.t); i != nil {
+			if i, c := r.intOverConst(f.t); i != nil {
 				// Ceil(fl(i / c)) = (i + c - 1) div c   (see intOverConst)
 				return r.mkSymFloat(tc.ToReal(tc.FDiv(tc.Add(i, tc.Int(new(big.Int).Sub(c, big.NewInt(1)))), c)))
 			}
@@ -469,7 +469,7 @@ func init() {
 	reg("math.Floor", func(fr *frame, a []value) value {
 		r := fr.i.run
 		if f, ok := a[0].(symFloat); ok {
-			if i, c := intOverConst(f.t); i != nil {
+			if i, c := r.intOverConst(f.t); i != nil {
 				return r.mkSymFloat(r.tc.ToReal(r.tc.FDiv(i, c)))
 			}
 			return r.mkSymFloat(r.tc.Fl(r.tc.ToReal(r.tc.Floor(f.t))))
@@ -555,7 +555,7 @@ func init() {
 			// Round(fl(i / c)) for a non-negative integer i < 2^52 and an integer constant 0 < c <= 2^20 is
 			// computed in integers as (2i + c) div 2c: the quotient's distance from a .5 boundary is 0 or
 			// at least 1/(2c), far more than the 2^-53 relative rounding error of the division.
-			if i, c := intOverConst(f.t); i != nil {
+			if i, c := r.intOverConst(f.t); i != nil {
 				n := tc.Add(tc.Mul(i, tc.Int64(2)), tc.Int(c))
 				return r.mkSymFloat(tc.ToReal(tc.FDiv(n, new(big.Int).Mul(c, big.NewInt(2)))))
 			}
@@ -721,20 +721,60 @@ func (r *Run) concatStr(a, b value) value {
 	return binop(r, tokenADD, nil, a, b)
 }
 
-// intOverConst recognises fl(to_real(i) / c) (or the unrounded quotient) for a non-negative integer
-// term i < 2^52 and an integer constant 0 < c <= 2^20. For such quotients Floor/Ceil/Round can be
-// computed exactly in integers: the quotient is either an integer or a half-integer (both exactly
-// representable) or at least 1/(2c) away from every integer and half-integer, which is far more than
-// the 2^-53 relative rounding error of the float division.
-func intOverConst(q *Term) (*Term, *big.Int) {
+// intOverConst recognises float quotients of an integer by a positive integer constant for which
+// Floor/Ceil/Round can be computed exactly in integers:
+//   (a) fl(to_real(i) / c) with 0 <= i < 2^52: one rounding, error < 1/(2c), while the quotient is an
+//       integer or half-integer (exactly representable) or at least 1/(2c) away from both;
+//   (b) time.Duration.Seconds(): fl(to_real(d div c) + fl(to_real(d mod c) / c)) with c = 10^9 and
+//       0 <= d < 2^52 ns (52 days): two roundings, total error < (d/c + 2) * 2^-53 < 1/(2c).
+// The range condition is discharged by the solver on the current path (no fork); if it cannot be
+// shown the generic encoding is used.
+func (r *Run) intOverConst(q *Term) (*Term, *big.Int) {
 	if q.op == "fl" {
 		q = q.args[0]
 	}
-	if q.op == "/" && len(q.args) == 2 && q.args[0].op == "to_real" && q.args[1].isCon && q.args[1].rval.IsInt() {
-		i, c := q.args[0].args[0], q.args[1].rval.Num()
-		if c.Sign() > 0 && c.Cmp(big.NewInt(1<<20)) <= 0 && i.lo != nil && i.lo.Sign() >= 0 && i.hi != nil && i.hi.Cmp(new(big.Int).Lsh(big.NewInt(1), 52)) < 0 {
-			return i, c
+	var i *Term
+	var c *big.Int
+	isPosIntConst := func(t *Term) *big.Int {
+		if t.isCon && t.sort == SReal && t.rval.IsInt() && t.rval.Sign() > 0 {
+			return t.rval.Num()
 		}
+		if t.isCon && t.sort == SInt && t.ival.Sign() > 0 {
+			return t.ival
+		}
+		return nil
+	}
+	switch {
+	case q.op == "/" && len(q.args) == 2 && q.args[0].op == "to_real":
+		if c = isPosIntConst(q.args[1]); c != nil {
+			i = q.args[0].args[0]
+		}
+	case q.op == "+" && len(q.args) == 2:
+		a, b := q.args[0], q.args[1]
+		if b.op == "to_real" {
+			a, b = b, a
+		}
+		if b.op == "fl" {
+			b = b.args[0]
+		}
+		if a.op == "to_real" && a.args[0].op == "div" && b.op == "/" && b.args[0].op == "to_real" && b.args[0].args[0].op == "mod" {
+			dv, md := a.args[0], b.args[0].args[0]
+			c1, c2, c3 := isPosIntConst(dv.args[1]), isPosIntConst(md.args[1]), isPosIntConst(b.args[1])
+			if c1 != nil && c2 != nil && c3 != nil && c1.Cmp(c2) == 0 && c1.Cmp(c3) == 0 && dv.args[0] == md.args[0] && c1.Cmp(big.NewInt(1000000000)) == 0 {
+				i, c = dv.args[0], c1
+			}
+		}
+	}
+	if i == nil || c.Cmp(new(big.Int).Lsh(big.NewInt(1), 40)) > 0 {
+		return nil, nil
+	}
+	lim := new(big.Int).Lsh(big.NewInt(1), 52)
+	if i.lo != nil && i.lo.Sign() >= 0 && i.hi != nil && i.hi.Cmp(lim) < 0 {
+		return i, c
+	}
+	tc := r.tc
+	if r.concrete == nil && r.mustHoldQuiet(tc.And(tc.Le(tc.Int64(0), i), tc.Lt(i, tc.Int(lim)))) {
+		return i, c
 	}
 	return nil, nil
 }
